@@ -64,12 +64,31 @@ pub struct Run {
     pub capped: AtomicBool,
     /// when set, nothing is written and the process does not exit in `finish` (used by replay)
     pub replay_mode: bool,
-    /// watchdog slots: (index of the case a worker is executing, time it last showed progress)
-    slots: Vec<(AtomicU64, AtomicU64)>,
+    /// watchdog slots: (index of the case a worker is executing, time it last showed progress, kernel id of the worker)
+    slots: Vec<(AtomicU64, AtomicU64, AtomicU64)>,
 }
 
 thread_local! {
     static SLOT: std::cell::Cell<usize> = const { std::cell::Cell::new(usize::MAX) };
+}
+
+/// kernel thread id of the calling thread (0 if it cannot be determined)
+fn own_tid() -> u64 {
+    std::fs::read_link("/proc/thread-self").ok().and_then(|p| p.file_name().and_then(|n| n.to_str().and_then(|s| s.parse().ok()))).unwrap_or(0)
+}
+
+/// processor time (user + system, seconds) a thread of this process has consumed; None if it cannot be read
+fn thread_cpu_s(tid: u64) -> Option<f64> {
+    if tid == 0 {
+        return None;
+    }
+    let text = std::fs::read_to_string(format!("/proc/self/task/{}/stat", tid)).ok()?;
+    // fields after the command name (which may contain blanks and brackets): state is #3, utime #14, stime #15
+    let rest = &text[text.rfind(')')? + 1..];
+    let f: Vec<&str> = rest.split_whitespace().collect();
+    let ut: f64 = f.get(11)?.parse().ok()?;
+    let st: f64 = f.get(12)?.parse().ok()?;
+    Some((ut + st) / 100.0)
 }
 
 pub fn machinery_error(msg: &str) -> ! {
@@ -235,7 +254,7 @@ impl Run {
             cov: Mutex::new(Coverage::default()),
             capped: AtomicBool::new(false),
             replay_mode: false,
-            slots: (0..64).map(|_| (AtomicU64::new(u64::MAX), AtomicU64::new(0))).collect(),
+            slots: (0..64).map(|_| (AtomicU64::new(u64::MAX), AtomicU64::new(0), AtomicU64::new(0))).collect(),
         }
     }
 
@@ -374,6 +393,7 @@ impl Run {
                     }
                     let _done = Done(finished);
                     SLOT.with(|s| s.set(t));
+                    cur[t].2.store(own_tid(), Ordering::SeqCst);
                     let mut s = init();
                     loop {
                         if stop.load(Ordering::SeqCst) {
@@ -395,6 +415,7 @@ impl Run {
                 }));
             }
             // monitor
+            let mut seen: Vec<(u64, u64, f64)> = vec![(u64::MAX, 0, 0.0); threads];
             loop {
                 std::thread::sleep(std::time::Duration::from_millis(100));
                 if finished.load(Ordering::SeqCst) as usize == threads {
@@ -407,7 +428,26 @@ impl Run {
                 for t in 0..threads {
                     let i = cur[t].0.load(Ordering::SeqCst);
                     let since = cur[t].1.load(Ordering::SeqCst);
-                    if i != u64::MAX && now > since && now - since > watchdog_s * 1000 {
+                    if i == u64::MAX {
+                        seen[t] = (u64::MAX, 0, 0.0);
+                        continue;
+                    }
+                    // The limit is on the processor time the worker has spent on the case, not on wall time: on a busy
+                    // machine a legitimate case can take many times longer than on an idle one, and that must never be
+                    // read as non-termination. A case that does not use the processor (blocked for good) is caught by
+                    // a wall limit of five times the watchdog time; cases that wait for a child process have their own,
+                    // shorter deadlines.
+                    let cpu = thread_cpu_s(cur[t].2.load(Ordering::SeqCst));
+                    if seen[t].0 != i || seen[t].1 != since {
+                        seen[t] = (i, since, cpu.unwrap_or(0.0));
+                        continue;
+                    }
+                    let spent = cpu.map(|c| c - seen[t].2);
+                    let hung = match spent {
+                        Some(sp) => sp > watchdog_s as f64 || (now > since && now - since > 5 * watchdog_s * 1000),
+                        None => now > since && now - since > 5 * watchdog_s * 1000,
+                    };
+                    if hung {
                         // re-read to make sure the same case is still running
                         if cur[t].0.load(Ordering::SeqCst) == i
                             && cur[t].1.load(Ordering::SeqCst) == since
@@ -415,8 +455,8 @@ impl Run {
                             self.violation(
                                 "nontermination-watchdog",
                                 format!(
-                                    "case {} of {} did not return within {} s",
-                                    i, name, watchdog_s
+                                    "case {} of {} did not return within {} s of processor time ({} s after it began)",
+                                    i, name, watchdog_s, (now - since) / 1000
                                 ),
                                 describe(i),
                             );
